@@ -5,9 +5,9 @@ from . import bootstrap as B
 Node = B.Node
 
 # cell layout
-CH, PA, NS, FI, RG = 0, 1, 2, 3, 4
-ASPECTS = {"children": CH, "parent": PA, "ns": NS, "fields": FI, "reg": RG}
-ASPECT_NAMES = ["children", "parent", "ns", "fields", "reg"]
+CH, PA, NS, FI, RG, NO = 0, 1, 2, 3, 4, 5
+ASPECTS = {"children": CH, "parent": PA, "ns": NS, "fields": FI, "reg": RG, "nsorder": NO}
+ASPECT_NAMES = ["children", "parent", "ns", "fields", "reg", "nsorder"]
 # fields layout
 F_ID, F_NAME, F_CONTENT, F_TAIL, F_PREFIX, F_ATTRS, F_EXTRAS = range(7)
 FIELD_NAMES = ["id", "name", "content", "tail", "prefix", "attributes", "extras"]
@@ -200,7 +200,10 @@ class World:
                 reg = get(nid) is n
             except TypeError:
                 reg = False
-            cells.append((ch, ph, _ns_items(n.nsmap), fields, reg))
+            nsm = n.nsmap
+            # prefix order matters to what the exporters print; kept apart from the by-value view
+            nso = tuple(nsm) if type(nsm) is dict and len(nsm) > 1 else ()
+            cells.append((ch, ph, _ns_items(nsm), fields, reg, nso))
             i += 1
         if isinstance(store, dict):
             h_of = self.h_of
